@@ -245,6 +245,12 @@ def run(ctx):
     d2(ctx, F)
     d3(ctx, F)
     d4(ctx, F)
+    # (D5) routers run as tasks on shared runtime workers: a `poll` that can go round for ever without consuming anything (K6) never yields
+    # its worker, so one stalled topic per worker stops every other topic (seed c17-19: park on the fan-out's poll_ready removed + `continue`
+    # while the slot is occupied)
+    from . import routers
+    for which in ("pubsub", "reqrep"):
+        routers.report(ctx, F, which, "C17", lambda f: f.kind == "K6")
     if ctx.tier == "thorough":
         FF = ctx.facts("allfeatures")
         d1(ctx, FF, "[all-features]")
